@@ -64,6 +64,7 @@
 #include <fcppt/container/find_opt_iterator.hpp>
 #include <fcppt/container/find_opt_mapped.hpp>
 #include <fcppt/container/get_or_insert.hpp>
+#include <fcppt/container/index_map.hpp>
 #include <fcppt/container/get_or_insert_with_result.hpp>
 #include <fcppt/container/join.hpp>
 #include <fcppt/container/key_set.hpp>
@@ -2746,8 +2747,79 @@ void vf_slice_16()
 }
 #endif
 #if VF_IN_SLICE(17)
+// index_map: a vector that grows on access. Reference: std::vector; get(i, f) calls f exactly max(0, i + 1 - size) times, in
+// order, appends the results, and returns a reference to element i; operator[] is get with a value-initialising f.
+void chk_index_map(std::uint64_t h)
+{
+  vf::rng g(vf::seed_for("container/index_map", h));
+  unsigned const steps = 1 + static_cast<unsigned>(g.below(10));
+  std::string text;
+  std::vector<unsigned> plan;
+  for (unsigned i = 0; i < steps; ++i)
+  {
+    unsigned const op = static_cast<unsigned>(g.below(3)), at = static_cast<unsigned>(g.below(9));
+    plan.push_back(op * 16 + at);
+    text += " " + std::to_string(op) + ":" + std::to_string(at);
+  }
+  if (!vf::begin_case("index_map history%s", text.c_str()))
+    return;
+  vf::sample_case(1);
+  vf::note_distinct(vf::hash_str("index_map" + text));
+  fcppt::container::index_map<int> m;
+  std::vector<int> ref;
+  int next = 100;
+  for (unsigned code : plan)
+  {
+    unsigned const op = code / 16, at = code % 16;
+    std::size_t const before = ref.size();
+    if (op == 0)
+    {
+      unsigned calls = 0;
+      lib();
+      int &r = m.get(at, fcppt::container::index_map<int>::insert_function{[&] { ++calls; return next++; }});
+      unsigned const want_calls = at >= before ? static_cast<unsigned>(at + 1 - before) : 0U;
+      for (unsigned k = 0; k < want_calls; ++k)
+        ref.push_back(next - static_cast<int>(want_calls) + static_cast<int>(k));
+      if (at >= before)
+        VF_COUNT("index_map/get/grew");
+      else
+        VF_COUNT("index_map/get/present");
+      expect(calls, want_calls, "index_map::get", "int", "insert-function-call-count");
+      expect(&r == &m.impl()[at], true, "index_map::get", "int", "returned-reference");
+    }
+    else if (op == 1)
+    {
+      lib();
+      int &r = m[at];
+      while (ref.size() <= at)
+        ref.push_back(0);
+      VF_COUNT("index_map/subscript");
+      expect(&r == &m.impl()[at], true, "index_map::operator[]", "int", "returned-reference");
+    }
+    else
+    {
+      lib();
+      m[at] = next; // a write through the returned reference stays
+      while (ref.size() <= at)
+        ref.push_back(0);
+      ref[at] = next++;
+      VF_COUNT("index_map/write-through-reference");
+    }
+    expect(seq(m.impl().begin(), m.impl().end()), seq(ref.begin(), ref.end()), "index_map", "int", "contents");
+  }
+  VF_COUNT("judged/index_map");
+}
+
 void vf_slice_17()
 {
+  if (vf::entry_enabled("container/index_map"))
+  {
+    vf::set_entry("container/index_map");
+    std::uint64_t const n = vf::tier<std::uint64_t>(3000, 200000);
+    for (std::uint64_t h = 0; h < n; ++h)
+      if (vf::mine(h))
+        chk_index_map(h);
+  }
   for_seqs("tuple/map,push_back", tuple_max, [](seq const &s) {
     [&]<std::size_t... N>(std::index_sequence<N...>) { (chk_tuple_n<N>(s), ...); }
     (std::make_index_sequence<tuple_max + 1>{});
@@ -2801,7 +2873,7 @@ void body()
         "judged/get_or_insert", "judged/key_set", "judged/map_values", "judged/set_union", "judged/set_intersection",
         "judged/set_difference", "judged/array::map", "judged/array::join", "judged/array::append",
         "judged/array::push_back", "judged/array::init", "judged/array::from_range", "judged/tuple::map",
-        "judged/tuple::concat", "judged/tuple::push_back",
+        "judged/tuple::concat", "judged/tuple::push_back", "judged/index_map", "index_map/get/grew", "index_map/get/present",
         // the boundary shapes the property is about
         "shape/empty-input", "shape/non-empty-input", "shape/empty-range", "shape/int_range-end-before-begin",
         "loop_break/stopped-before-end", "loop_break/ran-to-end", "fold_break/stopped-before-end",
